@@ -376,8 +376,11 @@ def rand_opd(rng, kind, shape, role='any'):
             r = rng.random()
             if role == 'div' and r < 0.4:
                 it = [rng.choice([0, 8, 16, -8]) for _ in range(ni)]       # zero components
-            elif r < 0.25:
+            elif r < 0.2:
                 it = [0] * ni                                               # zero vector / zero matrix
+            elif r < 0.4 and kind in ('V3', 'V2', 'V4', 'P'):
+                it = [0] * ni                                               # axis-aligned vector
+                it[rng.randrange(ni)] = rng.choice([8, -8, 16, -24, 40])
             elif kind in ('M2', 'M3') and r < 0.5:
                 nn = item[0]
                 rows = [[rng.choice([-8, 0, 8, 16]) for _ in range(nn)] for _ in range(nn)]
@@ -446,6 +449,19 @@ def prov_case(rng, op, kind, s, mode, nops=2):
         par['mask'] = mask_bits(par['mask'], par['shape'])
     opds = [K.child(par, sel) for sel in sels]
     return mk({'op': op, 'opds': opds, 'prov': {'par': par, 'sels': sels, 'mode': mode}})
+
+
+def make_parallel(rng, a, b, p=0.5):
+    """degenerate pair: elements of b become exact multiples (parallel / anti-parallel / equal) of the elements of a"""
+    if a['k'] != b['k'] or a['shape'] != b['shape']:
+        return b
+    n = K.isz(a)
+    v = list(b['v8'])
+    for i in range(len(v) // n):
+        if rng.random() < p:
+            c = rng.choice([1, -1, 2, -2])
+            v[i * n:(i + 1) * n] = [c * x for x in a['v8'][i * n:(i + 1) * n]]
+    return dict(b, v8=v)
 
 
 def lapack_agrees(o):
@@ -653,6 +669,49 @@ def gen_cases(rng, tier):
             if not isinstance(a['mask'], str):
                 cases.append(mk({'op': 'dot', 'opds': [a, dict(a)], 'alias': True}))
                 cases.append(mk({'op': 'cross', 'opds': [a, dict(a, v8=rand_opd(rng, 'V3', s)['v8'])], 'share': True}))
+    # 3b. peripheral-class operations with DEGENERATE operands (axis-aligned, zero, mutually parallel vectors; order-0
+    #     polynomials): oracle "masked iff an operand is masked or the operation is invalid there"
+    PER_UN = [('cpm', 'V3'), ('swapxy', 'P'), ('rot90', 'P'), ('pangle', 'P'), ('longitude', 'V3'), ('latitude', 'V3'),
+              ('conj', 'Q'), ('poly_neg', 'PL2'), ('poly_neg', 'PL0'), ('poly_deriv', 'PL1'), ('poly_deriv', 'PL3'),
+              ('poly_deriv', 'PL2')]
+    PER_BIN = [('sep', 'V3', 'V3'), ('sep', 'V2', 'V2'), ('vector_scale', 'V3', 'V3'), ('vector_unscale', 'V3', 'V3'),
+               ('rotate', 'R', 'V3'), ('unrotate', 'R', 'V3'), ('q_from_parts', 'S', 'V3'),
+               ('poly_eval', 'PL0', 'S'), ('poly_eval', 'PL1', 'S'), ('poly_eval', 'PL2', 'S'), ('poly_eval', 'PL3', 'S'),
+               ('poly_eval', 'PL0', 'N'), ('poly_eval', 'PL2', 'Si'),
+               ('poly_add', 'PL0', 'PL2'), ('poly_add', 'PL3', 'PL1'), ('poly_sub', 'PL1', 'PL1'), ('poly_mul', 'PL1', 'PL2'),
+               ('poly_mul', 'PL0', 'PL3'), ('poly_mul', 'PL2', 'PL0'),
+               ('perp', 'V3', 'V3'), ('proj', 'V3', 'V3'), ('ucross', 'V3', 'V3'), ('cross', 'V3', 'V3'), ('dot', 'V3', 'V3')]
+    for _ in range(reps):
+        for op, ka in PER_UN:
+            for s in SHAPES1:
+                cases.append(mk({'op': op, 'opds': [rand_opd(rng, ka, s)]}))
+        for op, ka, kb in PER_BIN:
+            for sa, sb in SHAPE_PAIRS:
+                if KINDS[kb][0] == 'number' and sb:
+                    continue
+                if not thorough and rng.random() < 0.5:
+                    continue
+                a = rand_opd(rng, ka, sa)
+                b = make_parallel(rng, a, rand_opd(rng, kb, sb))
+                cases.append(mk({'op': op, 'opds': [a, b]}))
+        # Vector3.spin(pole, angle): vectors along / against the pole, zero vectors, axis poles; the angles are non-zero
+        for sa, sb in SHAPE_PAIRS:
+            out = K.lead_bcast([sa, sb])
+            for sc in ([], out):
+                a = rand_opd(rng, 'V3', sa)
+                b = make_parallel(rng, a, rand_opd(rng, 'V3', sb), 0.6)
+                kc = rng.choice(['S', 'S', 'N']) if not sc else 'S'
+                c = rand_opd(rng, kc, sc, 'angle')
+                c['v8'] = [x if x != 0 else 12 for x in c['v8']]
+                cases.append(mk({'op': 'spin', 'opds': [a, b, c]}))
+        for sa, sb in SHAPE_PAIRS[:12]:
+            out = K.lead_bcast([sa, sb])
+            for op in ('from_ra_dec_length', 'from_cylindrical', 'v3_from_scalars'):
+                ks = [rng.choice(['S', 'S', 'Si']) for _ in range(3)]
+                cases.append(mk({'op': op, 'opds': [rand_opd(rng, ks[0], sa, 'angle'), rand_opd(rng, ks[1], sb, 'angle'),
+                                                    rand_opd(rng, ks[2], rng.choice([[], out]), 'angle')]}))
+            cases.append(mk({'op': 'eval_quadratic', 'opds': [rand_opd(rng, 'S', sa), rand_opd(rng, 'S', sb),
+                                                              rand_opd(rng, 'S', []), rand_opd(rng, 'S', out)]}))
     # Matrix / Quaternion to a (possibly masked) shape-() integer power
     for _ in range(reps):
         for ka in ('M2', 'Q'):
